@@ -525,3 +525,54 @@ def _mk_ignored(wire):
 
 for _w in ('json', 'xml', 'soap11'):
     _mk_ignored(_w)
+
+
+# ------------------------------------------------------------------------------------------ values are never tested for truth
+# (deductive: the arguments are symbolic integers, so 0 is one of the values every clause is proved for)
+
+class _Flat3(ComplexModel):
+    __namespace__ = TNS
+    a = Integer
+    b = Integer
+    c = Integer
+
+
+class _Flat4(_Flat3):
+    __namespace__ = TNS
+    d = Integer
+
+
+def _mk_serialization_instance(shape):
+    @obligation('C18.serialization_instance.%s' % shape, targets=['spyne.model.complex:ComplexModelBase.get_serialization_instance'],
+                desc="get_serialization_instance(cls, value) for a sequence / dict of symbolic integers (so also 0): every "
+                     "position / key given is assigned to the member it is aligned with (ancestors' members first), whatever "
+                     "its value; members not given are None; an instance is returned as it is",
+                assumptions=["integer-valued members (other types are not inspected by the function)"])
+    def ob(c):
+        cls = c.choose([_Flat3, _Flat4], 'class')
+        keys = list(cls.get_flat_type_info(cls).keys())
+        n = c.choose(list(range(len(keys) + 1)), 'values_given')
+        vals = [c.int('v%d' % i) for i in range(n)]
+        if shape == 'tuple':
+            arg = tuple(vals)
+        elif shape == 'list':
+            arg = list(vals)
+        else:
+            arg = {k: v for k, v in zip(keys, vals)}
+        out = c.run(cls.get_serialization_instance, arg)
+        c.check('returns', out.returned, detail=repr(out))
+        if not out.returned:
+            return
+        inst = out.value
+        c.check('instance_of_the_class', isinstance(inst, cls), detail=repr(inst))
+        for i, k in enumerate(keys):
+            got = getattr(inst, k, None)
+            if i < n:
+                c.check('member_is_the_value_given[%s]' % k, (got is vals[i]) if not c.concrete else got == vals[i], detail=(k, repr(got)))
+            else:
+                c.check('member_not_given_is_none[%s]' % k, got is None, detail=(k, repr(got)))
+    return ob
+
+
+for _s in ('tuple', 'list', 'dict'):
+    _mk_serialization_instance(_s)
